@@ -30,7 +30,9 @@ class LambdaTokenTranslator(AbstractTranslator):
                         condition_symbol = '=='
 
                 if parsed_literal[1]:
-                    condition_value = parsed_literal[1]
+                    # the number is pasted into the generated code, where 05 is not a literal
+                    number = parsed_literal[1]
+                    condition_value = repr(float(number)) if parsed_literal[3] or parsed_literal[6] else repr(int(number))
                 else:
                     condition_value = expression
 
